@@ -185,6 +185,15 @@ def run_gauss(c, rec):
             moments = quad_moments_from_gradient(d.gradient, n, h=10.0 ** c.get("scale_pow", 0))
         check_affine_law(d, n, lambda x: float(np.asarray(d.logd(x)).reshape(-1)[0]), rec, "Gaussian", tol, moments=moments,
                          h=10.0 ** c.get("scale_pow", 0))
+        # the draws also have the covariance that was specified (the density's agreement with the specification is C04's
+        # subject; this guards against density and sampler being wrong together). The sqrtcov convention finding (C04) is skipped.
+        if not (c["param"] == "sqrtcov" and c["structure"] in ("dense", "sparse") and c["sqrt_kind"] != "symmetric"):
+            k0, kt0, draw0 = affine_map(d, n, 1)
+            a0 = np.asarray(draw0(np.zeros(kt0)), dtype=float).reshape(n)
+            B0 = np.array([np.asarray(draw0(np.eye(kt0)[i]), dtype=float).reshape(n) - a0 for i in range(kt0)]).T
+            Sspec = c04.gauss_sigma(c)
+            require(maxdiff(B0 @ B0.T, Sspec) <= 1e-6 * float(np.max(np.abs(Sspec))), "Gaussian: covariance of the draws is not the specified covariance",
+                    got=B0 @ B0.T, want=Sspec)
         check_shapes_and_stream(d, n, rec, "Gaussian")
         # several draws: column j depends on column j of the normal array only
         k, k_total, draw = affine_map(d, n, 3)
